@@ -180,6 +180,8 @@ def analyse_job(job):
     unknown = {}
     for inst in insts:
         key = inst.key(_C, vt)
+        if getattr(inst, "clause", None):
+            key["clause"] = inst.clause
         ks = json.dumps(key, sort_keys=True)
         if ks not in miss and getattr(inst, "subst", None) is not None:
             # shared wrapper: missing is recorded under the first instance's key
@@ -191,11 +193,14 @@ def analyse_job(job):
                 continue
             out.append((key, MISSING, miss[ks], "wrapper must compile", None))
             continue
+        if getattr(inst, "wrapper_only", False) and ks not in miss:
+            continue
         f = m["functions"].get(inst.fname)
         if f is None or f["decl"]:
             out.append((key, MISSING, "wrapper not emitted", "wrapper must compile", None))
             continue
         try:
+            T.set_budget(nodes=getattr(inst, "budget_nodes", 250000), seconds=getattr(inst, "budget_s", 6))
             ctx = make_ctx(vt, inst, f)
             sub = getattr(inst, "subst", None)
             if sub:
@@ -218,11 +223,17 @@ def analyse_job(job):
             v, detail, rule, wit = j(ctx, inst, S)
         except Broken:
             raise
+        except T.TooBig as e:
+            v, detail, rule, wit = UNDECIDED, "closed form too large for the analysis budget (%s)" % e, None, None
         except Exception as e:  # analysis error -> undecided with reason, never a pass
             import traceback
             v, detail, rule, wit = UNDECIDED, "analysis error: %s: %s" % (type(e).__name__, str(e)[:200]), None, None
             unknown["EXC:" + traceback.format_exc().splitlines()[-3].strip()[:120]] = 1
         out.append((key, v, detail, rule, wit))
+        T.set_budget(None, None)
+        if len(T._intern) > 1500000:
+            T.reset()
+            I = irterm.Interp(m, isa.TABLE)
     return {"res": out, "unknown": unknown}
 
 
@@ -239,7 +250,7 @@ def run_families(res, cfgs, families, type_filter=None, override=None, keytag=No
             res.brk(r["broken"])
             continue
         for key, v, detail, rule, wit in r["res"]:
-            if keytag:
+            if keytag and "clause" not in key:
                 key = dict(key, clause=keytag)
             res.add(key, v, detail, rule, wit)
         for u, n in r.get("unknown", {}).items():
